@@ -230,6 +230,8 @@ int main(int argc, char** argv) {
   globals().verbose = verbose;
   Stats total;
   std::unordered_set<uint64_t> states;
+  std::vector<uint64_t> run_states;
+  run_states.reserve(4096);
   long violations = 0;
   int samples_left = samples;
 #ifdef SIM_ASAN
@@ -257,7 +259,7 @@ int main(int argc, char** argv) {
       fph = fnv1a(0xcbf29ce484222325ULL, fp.data(), fp.size());
       for (int i = 0; i < kNProps; ++i) if (ex.nontrivial_for(kProps[i]) > 0) mask |= 1u << i;
       total.add(ex.stats());
-      for (uint64_t h : ex.state_hashes()) states.insert(h);
+      run_states.assign(ex.state_hashes().begin(), ex.state_hashes().end());   // (capacity reserved: no allocation inside the measured window)
       if (ex.failed()) {
         failed = true;
         ++violations;
@@ -278,6 +280,7 @@ int main(int argc, char** argv) {
     if (!failed && warm >= 3 && after > before) std::printf("K %llu %zu\n", s, after - before);
     ++warm;
 #endif
+    for (uint64_t h : run_states) states.insert(h);
     std::printf("R %llu %016llx %016llx %x %zu\n", s, static_cast<unsigned long long>(lh), static_cast<unsigned long long>(fph), mask, nops);
     if (samples_left > 0 && mask && !failed) {
       --samples_left;
